@@ -127,6 +127,33 @@ func vfcThroughLink(c *vfcClient, R uint64) {
 	look()
 }
 
+// vfcBigRead: family 6. Transfer sizes above 4096 that are not a multiple of 4096 (what FSINFO
+// advertises is rounded, what READ serves is not) and files larger than the transfer size: the
+// count of every READ is min(requested, transfer size, size - offset) and eof says whether the
+// end was reached.
+func vfcBigRead(c *vfcClient, R uint64, T int) {
+	c.snap = 1 << 14
+	c.create(R, "f", 0, vfSattr{Mode: u32p(0644)}, "")
+	f := c.handleOf("f")
+	size := T + T/5
+	pat := make([]byte, size)
+	for i := range pat {
+		pat[i] = byte(1 + i%251)
+	}
+	for off := 0; off < size; off += T / 2 {
+		end := off + T/2
+		if end > size {
+			end = size
+		}
+		c.write(f, "small", uint64(off), pat[off:end], 2)
+	}
+	for _, rd := range [][2]int{{0, size}, {0, T}, {0, T + 1}, {0, T - 1}, {0, 4097}, {0, T - T%4096}, {0, T - T%4096 + 1},
+		{7, T}, {size - T, T}, {size - T + 1, T}, {size - 10, T}, {size, T}, {0, 1 << 20}} {
+		c.read(f, "small", uint64(rd[0]), uint32(rd[1]))
+	}
+	c.getattr(f)
+}
+
 // vfcDirectedData runs the data-path probes (appended to the "data" profile).
 func vfcDirectedData(t *testing.T, tr *vfTrace, firstHist int, seed int64) int {
 	n := 0
@@ -138,6 +165,13 @@ func vfcDirectedData(t *testing.T, tr *vfTrace, firstHist int, seed int64) int {
 		n++
 		c = vfcNewClient(t, tr, cfg, firstHist+n, seed)
 		vfcThroughLink(c, c.hs[0])
+		c.flush()
+		c.env.Close()
+		n++
+	}
+	for _, T := range []int{5000, 8191} {
+		c := vfcNewClient(t, tr, vfcCfg{TTL: "def", T: T, Profile: "data"}, firstHist+n, seed)
+		vfcBigRead(c, c.hs[0], T)
 		c.flush()
 		c.env.Close()
 		n++
